@@ -109,6 +109,11 @@ func (mr *modelReference) initDimensions() ([]int, error) {
 		return nil, err
 	}
 	
+	if allParameters.Len(sim.DIMP_CELL) == 0 {
+		// a model type without any node: there is no table to size (FindDimensions takes the maximum of an empty array)
+		return make([]int, len(dims)), nil
+	}
+
 	dimSizes := modelInstance.FindDimensions(allParameters.(data.ND2Float64))
 
 	verbosePrintf("===== Simulation dimension sizes for %s =====\n",mr.ModelName)
